@@ -30,6 +30,9 @@ type TierSpec struct {
 	MaxPaths int            `json:"max_paths"`
 	TimeoutS int            `json:"timeout_s"`
 	OblS     int            `json:"obligation_timeout_s"`
+	PipeMs   int            `json:"pipe_timeout_ms"` // incremental-pipe cap per obligation (default 10000); small for FP-heavy harnesses
+	FeasMs   int            `json:"feas_timeout_ms"` // incremental-pipe cap per feasibility query (default 2000)
+	PipeS    int            `json:"pipe_timeout_s"` // incremental-pipe timeout per obligation (default 10); lower it for FP-heavy harnesses that only the portfolio decides
 	Skip     bool           `json:"skip"`
 }
 
